@@ -839,6 +839,16 @@ func (c *EvalCtx) call(e ECall) EV {
 			c.fail("lastResult(%s,%d): no such tracked call", name, k)
 		}
 		return EV{T: fr.R.Sc.Declare("never."+sanitize(key), fr.R.TM.SortOf(ty)), Ty: ty}
+	case "now":
+		// now(e) inside at(snapshot, ...): e is evaluated in the state the clause itself is evaluated in
+		if c.logSt == nil {
+			return c.eval(e.Args[0])
+		}
+		var out EV
+		n := c.inState(c.logSt)
+		n.logSt = nil
+		n.withFrameState(func() { out = n.eval(e.Args[0]) })
+		return out
 	case "ghostOf":
 		// ghostOf("name", x): specification-only boolean attribute of the object x (e.g. "armed" for a *time.Timer)
 		x := c.eval(e.Args[1])
